@@ -412,9 +412,14 @@ impl Family for GlueFam {
         "glue"
     }
     fn strategy(&self, _tier: Tier) -> BoxedStrategy<PushCase> {
-        (0u8..4, proptest::collection::vec(((0u8..4).prop_map(ServerScheme::Fam), 1u8..3), 1..=3))
-            .prop_map(|(client_scheme, sessions)| PushCase { default_used: false, client_scheme, sessions })
+        let ss = prop_oneof![5 => (0u8..4).prop_map(ServerScheme::Fam), 1 => Just(ServerScheme::Builtin)];
+        (any::<bool>(), 0u8..4, proptest::collection::vec((ss, 1u8..3), 1..=3))
+            .prop_map(|(default_used, client_scheme, sessions)| PushCase { default_used, client_scheme, sessions })
             .boxed()
+    }
+    fn fixed_cases(&self, _tier: Tier) -> Vec<PushCase> {
+        // a client with a scheme of its own against a server that runs the built-in one
+        vec![PushCase { default_used: false, client_scheme: 2, sessions: vec![(ServerScheme::Builtin, 3), (ServerScheme::Builtin, 2)] }, PushCase { default_used: true, client_scheme: 1, sessions: vec![(ServerScheme::Builtin, 3)] }]
     }
     fn case_budget_s(&self) -> u64 {
         200
@@ -422,6 +427,11 @@ impl Family for GlueFam {
     fn run(&self, case: &PushCase, _cx: &CaseCtx) -> CaseResult {
         let mut out = Outcome::new();
         let child = c19::run_child(case)?;
+        // every packet below stop is shaped by the line of the scheme that is in force for it - the
+        // session's own scheme before a push, the pushed one afterwards (the judgement C19 makes)
+        if let Err(f) = c19::judge(case, &child, _cx) {
+            return Err(Fail::new("C05.shape", format!("C05.shape:{}", f.sig), f.detail));
+        }
         for (si, obs) in child.conns.iter().enumerate() {
             if !obs.auth_ok {
                 continue;
